@@ -10,7 +10,11 @@ B: behaviours chosen by TLC (`-simulate` over TrackerSM, 40-600 per start place,
 C: seeded random histories (2-4 aircraft, genuine CPR squitters built by an integer encoder that TLC re-checks, random
    payloads for every other type code, Comm-B incl. unknown addresses, upper / lower / mixed-case hex, batches spanning
    0.5 s .. 200 s) through the real Decode.process_raw; the full projected table after every call is validated by TLC
-   (Trace_Tracker): NoRaise, Gate, Fresh (59 s / 61 s), Accurate (0.001 deg against the ground truth), model equality.
+   (Trace_Tracker): NoRaise, Gate, Fresh (59 s / 61 s), Accurate (0.001 deg against the ground truth), model equality
+   (positions, slots, and the rest of the table: callsign, velocity, altitude, Comm-B values, the version-dependent
+   quality-indicator state).
+Beyond the property's statement (every deviation is MODEL-DRIFT): decode_loop() - the decoder process loop Decode.run
+   (DecodeLoop / DecodeLoopMC / Trace_DecodeLoop); viewer() - the screen process (ScreenSM / Trace_Screen).
 """
 import concurrent.futures as cf
 import json
@@ -623,7 +627,9 @@ def run(ctx):
     ctx.rule = ("model: all interleavings of {tick 0.5/9.5/10.5/61.5/181 s, position squitter (either parity), other squitter, "
                 "Comm-B reply (known / unknown address), take-off/landing, process} for 2 aircraft from 6 start places to depth 6/7; "
                 "code: seeded random histories of 8-30 (thorough 80) steps with 2-4 aircraft, batches spanning 0.5-250 s, hex case "
-                "upper/lower/mixed; distinct = distinct (history, call) pairs")
+                "upper/lower/mixed; distinct = distinct (history, call) pairs.  Beyond the property (drift only): the decoder process "
+                "loop (DecodeLoop: one schedule per transition of its state graph + simulated schedules through the real Decode.run) and "
+                "the viewer (ScreenSM: simulated key / table / update sequences on the real Screen)")
     ctx.assumptions += ["trajectories within +-80 deg latitude, surface speed <= 70 kt (1/9 of the airborne velocity), landing only "
                         "within ~30 NM of the receiver, a mode (surface/airborne) is held > 10 s; timestamps are multiples of 0.5 s"]
     base = open(os.path.join(tlc.SPEC_DIR, "TrackerSM.cfg")).read()
